@@ -1,3 +1,4 @@
+import QF.Props.Tie
 import QF.Core.Small
 /-!
 # C17 — enum value sets: the 256-bit set used by `in`, `like`, `ilike`
@@ -9,5 +10,12 @@ namespace QF.Props.C17
 theorem bitset_spec (s : Small.BitSet) (v w : Nat) (hv : v < 256) (hw : w < 256) :
     Small.bsIsSet (Small.bsSet s v) w = (decide (w = v) || Small.bsIsSet s w) :=
   Small.bitset_spec s v w hv hw
+
+/-- T1: the functions this property's mirror model follows have today the source text the model was written against. -/
+theorem tie : Tie.sameAll ["ecolumn.maxCardinality", "ecolumn.nullValue", "ecolumn.bitset.set", "ecolumn.bitset.isSet", "ecolumn.compVal", "ecolumn.subset", "ecolumn.New", "ecolumn.NewConst", "ecolumn.NewFactory", "ecolumn.Factory.enumVal", "ecolumn.Factory.appendString", "ecolumn.Factory.AppendByteString", "ecolumn.Factory.AppendString", "ecolumn.Column.filterBuiltIn"] = true := by decide
+
+/-- Today's limits: 255 values, the code 255 is the null marker (so no value is ever reported as null). -/
+theorem gen_enum_constants :
+    Gen.consts.lookup "ecolumn.maxCardinality" = some "255" ∧ Gen.consts.lookup "ecolumn.nullValue" = some "maxCardinality" := by decide
 
 end QF.Props.C17
